@@ -113,7 +113,7 @@ func genC08(t *rapid.T, tier string) (*World, any) {
 	}
 	// cross-file probes
 	sort.Strings(targets)
-	p.Probe = pick(t, []string{"none", "none", "stash-writer-reader", "unclosed-block", "definition-elsewhere", "flags-elsewhere", "prefix-elsewhere", "exclude-under-other-definitions", "file-format-rejects", "uppercase-class-elsewhere", "cmdline-both-shells"}, "probe")
+	p.Probe = pick(t, []string{"none", "none", "stash-writer-reader", "unclosed-block", "definition-elsewhere", "flags-elsewhere", "prefix-elsewhere", "exclude-under-other-definitions", "file-format-rejects", "uppercase-class-elsewhere", "cmdline-both-shells", "linked-data-file", "chain-number-beyond-255"}, "probe")
 	a, b := targets[0], targets[1]
 	if drawBool(t, "probe-swap") {
 		a, b = b, a
@@ -154,6 +154,17 @@ func genC08(t *rapid.T, tier string) (*World, any) {
 	}
 	for name, lines := range progs {
 		w.Put("crs/regex-assembly/"+name+".ra", joinLines(lines))
+	}
+	switch p.Probe {
+	case "linked-data-file":
+		// one data file is a symbolic link to a file kept elsewhere in the tree: it is a data file like the others
+		data := w.Files["crs/regex-assembly/"+a+".ra"]
+		delete(w.Files, "crs/regex-assembly/"+a+".ra")
+		w.Files["crs/shared-data/"+a+".ra"] = data
+		w.Links = map[string]string{"crs/regex-assembly/" + a + ".ra": "../shared-data/" + a + ".ra"}
+	case "chain-number-beyond-255":
+		// a file name whose chain number is out of range addresses nothing, with --all as with a single invocation
+		w.Put("crs/regex-assembly/"+strings.SplitN(a, "-", 2)[0]+"-chain"+pick(t, []string{"256", "257", "300"}, "bigk")+".ra", "beyond\n")
 	}
 	if chance(t, 40, "cfg") || p.Probe == "cmdline-both-shells" {
 		w.Put("crs/regex-assembly/toolchain.yaml", crsLikeConfig)
@@ -231,7 +242,9 @@ func walkItems(sb *Sandbox, cmd string) []c08Item {
 				items = append(items, c08Item{Arg: base, Path: rel})
 			}
 		default: // format
-			if isRule {
+			if m := ruleNameRe.FindStringSubmatch(d.Name()); isRule && m[1] != "" && atoi(strings.TrimPrefix(m[1], "-chain")) > 255 {
+				// a chain number out of range: no argument addresses this file, --all formats it like any other .ra file
+			} else if isRule {
 				items = append(items, c08Item{Arg: base, Path: rel})
 			} else if dir == "include" {
 				items = append(items, c08Item{Arg: base, Path: rel})
@@ -335,7 +348,8 @@ func evalC08(sc *Scenario, sim *Sim) ([]Violation, bool, string) {
 		exits = append(exits, r.Exit)
 		outs = append(outs, r.Stdout)
 		hardFail := r.Exit != 0
-		if (p.Cmd == "compare" || p.Cmd == "compare-gh") && r.Exit == 1 && !strings.Contains(string(r.Stderr), "FTL") && !strings.Contains(string(r.Stderr), "PNC") {
+		if (p.Cmd == "compare" || p.Cmd == "compare-gh") && r.Exit == 1 && !strings.Contains(string(r.Stderr), "FTL") && !strings.Contains(string(r.Stderr), "PNC") &&
+			(strings.Contains(string(r.Stdout), "has changed") || strings.Contains(string(r.Stdout), "::")) {
 			hardFail = false // a reported difference is a verdict, not a failure
 		}
 		if hardFail && firstFail < 0 {
